@@ -3,10 +3,20 @@ which reference-oracle families belong to the property, evidence level and trust
 
 SUITES = {
     # suite -> harness generator parameters per tier
+    "C": {"quick": ["--cases", "500"], "thorough": ["--cases", "6000"]},
     "T": {"quick": ["--cases", "150", "--max-ops", "60"], "thorough": ["--cases", "1500", "--max-ops", "120"]},
 }
 
 PROPS = {
+    "C14": {
+        "lean": ["Brc20.Props.C14"],
+        "suites": ["C"],
+        "level": "proof",
+        "trusted": ["translator tools/gen_codecs.py (field sequences of every impl Encode / impl Decode)",
+                    "serde derive + ruint hex (JSON part: validated by re-serialisation on the real code only, not modelled)"],
+        "assumptions": ["lengths < 2^32 (the Rust casts `len as u32`)", "TraceED nesting depth <= 12 in the model",
+                        "TxED.chain_id / tx_type and the BlockResponseED constants are reconstituted from configuration, not stored"],
+    },
     "C13": {
         "lean": ["Brc20.Props.C13"],
         "suites": ["T"],
